@@ -260,13 +260,15 @@ def build(r: random.Random, name: str, n: int, floats: bool = False, mode: Optio
         return Elem(name, spec, mode, eps), Rows(X=specs.elem_data(r, name, n, d, floats=floats and name != "ART1"))
     if name == "FusionART":
         k = r.randint(1, 3)
-        chans = [r.choice(["FuzzyART", "FuzzyART", "ART2A"]) for _ in range(k)]
+        pool = ["FuzzyART", "FuzzyART", "ART2A"] if r.random() < 0.6 else \
+            ["FuzzyART", "HypersphereART", "EllipsoidART", "GaussianART", "BayesianART", "QuadraticNeuronART", "ART1"]
+        chans = [r.choice(pool) for _ in range(k)]
         ds = [r.randint(1, 2) for _ in range(k)]
         sp = [_elem(r, c, dd) for c, dd in zip(chans, ds)]
         gam = {1: [1.0], 2: r.choice([[0.5, 0.5], [0.25, 0.75]]), 3: r.choice([[0.5, 0.25, 0.25], [0.25, 0.25, 0.5]])}[k]
         dims = [specs.width(c, dd) for c, dd in zip(chans, ds)]
         spec = {"cls": "FusionART", "modules": sp, "gamma_values": gam, "channel_dims": dims}
-        X = np.hstack([specs.elem_data(r, c, n, dd, floats=floats) for c, dd in zip(chans, ds)])
+        X = np.hstack([specs.elem_data(r, c, n, dd, floats=floats and c != "ART1") for c, dd in zip(chans, ds)])
         return Fusion(spec, mode, eps), Rows(X=X)
     if name == "SimpleARTMAP":
         a = r.choice(ELEM)
@@ -317,7 +319,7 @@ def build(r: random.Random, name: str, n: int, floats: bool = False, mode: Optio
         R = gen.cc(gen.grid_rows(r, n, 1, style="coarse"))
         return (TDFalcon if name == "TD_FALCON" else Falcon)(spec, mode, eps), Rows(S=S, A=A, R=R)
     if name == "DualVigilanceART":
-        base = r.choice(["FuzzyART", "HypersphereART", "ART2A", "EllipsoidART", "ART1", "QuadraticNeuronART"])
+        base = r.choice(["FuzzyART", "HypersphereART", "ART2A", "EllipsoidART", "ART1", "QuadraticNeuronART", "GaussianART"])
         bs = _elem(r, base, d)
         if bs["rho"] == 0.0:
             bs["rho"] = 0.5
